@@ -161,6 +161,7 @@ type c03Cfg struct {
 	CookieName string
 	Prefix     string
 	SignInPage bool
+	CSRFExpire string // "" = default (15m) | "0s" (session cookie: no expiry, the documented meaning of 0) | "24h" (round 6)
 }
 
 func c03B(b bool) string { return strconv.FormatBool(b) }
@@ -190,6 +191,9 @@ func (c c03Cfg) flags(w *vfWorld, secret string, encode bool) []string {
 	}
 	if c.PKCE != "" {
 		f = append(f, "--code-challenge-method="+c.PKCE)
+	}
+	if c.CSRFExpire != "" {
+		f = append(f, "--cookie-csrf-expire="+c.CSRFExpire)
 	}
 	if c.Store == "redis" {
 		f = append(f, "--session-store-type=redis", "--redis-connection-url="+w.RedisURL())
@@ -837,6 +841,12 @@ func c03Configs(thorough bool, seed int64) []c03Cfg {
 						c.Prefix = "/auth2"
 					case 3:
 						c.SignInPage = true
+					}
+					switch len(out) % 3 {
+					case 0:
+						c.CSRFExpire = "0s"
+					case 2:
+						c.CSRFExpire = "24h"
 					}
 					out = append(out, c)
 				}
